@@ -97,7 +97,7 @@ def gen_family(rng):
         blocks.append(b)
         return b["id"]
     shape = rng.choice(["two-leaves", "two-leaves", "leaf-repeat-leaf", "nest+leaf", "merge+leaf", "same-geometry",
-                        "three-leaves", "combinator-constraint", "repeat-of-shared"])
+                        "three-leaves", "combinator-constraint", "repeat-of-shared", "shared-mintrials"])
     target = rng.choice([0, 0, 0, 1, 1, 2])
     shared = [new_c(rand_shared_constraint(rng, 0, target))]
     if rng.random() < 0.4:
@@ -124,7 +124,11 @@ def gen_family(rng):
 
     def mt(n):
         return new_c({"id": 0, "kind": "MinimumTrials", "trials": n})
-    if shape == "two-leaves":
+    if shape == "shared-mintrials":
+        m = mt(rng.choice([3, 4]))
+        leaf(small, small, list(shared) + [m, mt(rng.choice([5, 6]))])
+        leaf(small, small, list(shared) + [m])
+    elif shape == "two-leaves":
         leaf(maybe_extra(small), small, list(shared) + ([mt(rng.choice([3, 4, 5]))] if rng.random() < 0.4 else []))
         leaf(maybe_extra(big), big, list(shared))
     elif shape == "three-leaves":
@@ -188,6 +192,11 @@ def corpus():
         "factors": [f, g], "constraints": [c],
         "blocks": [{"id": 0, "kind": "CrossBlock", "design": [0, 1], "crossing": [0, 1], "constraints": [0], "rcc": True},
                    {"id": 1, "kind": "CrossBlock", "design": [0, 1], "crossing": [0, 1], "constraints": [0], "rcc": True}],
+        "main": 1}))
+    out.append(("shared-minimumtrials", {
+        "factors": [f], "constraints": [{"id": 0, "kind": "MinimumTrials", "trials": 3}, {"id": 1, "kind": "MinimumTrials", "trials": 6}],
+        "blocks": [{"id": 0, "kind": "CrossBlock", "design": [0], "crossing": [0], "constraints": [0, 1], "rcc": True},
+                   {"id": 1, "kind": "CrossBlock", "design": [0], "crossing": [0], "constraints": [0], "rcc": True}],
         "main": 1}))
     out.append(("nest-outer-exactlyk", {
         "factors": [f, g], "constraints": [{"id": 0, "kind": "ExactlyK", "k": 1, "level": [0, "a"]}],
